@@ -109,7 +109,8 @@ def directed(rng, v, siblings=(), budget=24, sentinels=24):
                 doc = None
             if isinstance(doc, dict):
                 for k in list(doc)[:6]:
-                    for alt in ('NaN', 'Infinity', '-Infinity', '1e999', '-1', '"x"', '[]', '{}', 'null', 'true', '1.5', '99999999999999999999'):
+                    for alt in ('NaN', 'Infinity', '-Infinity', '1e999', '-1', '"x"', '[]', '{}', 'null', 'true', '1.5', '99999999999999999999',
+                                '9' * 400, '[' * 100000 + ']' * 100000):
                         out.append(('{%s}' % ', '.join('%s: %s' % (json.dumps(n), alt if n == k else json.dumps(x)) for n, x in doc.items())).encode('ascii'))
         # dates at the ends of the calendar with a zone offset that carries them beyond it, and beyond the calendar
         for m in list(re.finditer(rb'[A-Z][a-z]{2}, \d{2} [A-Z][a-z]{2} \d{4} \d{2}:\d{2}:\d{2} GMT', v))[:2]:
@@ -142,7 +143,7 @@ def directed(rng, v, siblings=(), budget=24, sentinels=24):
     # host names: a label turned into a malformed / truncated / empty ACE (punycode) label
     for m in list(re.finditer(rb'[a-z0-9-]{3,}', v))[:3]:
         a, b = m.span()
-        for lab in (b'xn--', b'xn--a-', b'xn--' + v[a:b][:-1] + b'-', b'xn--99999999a', b'xn--bcher-kv'):
+        for lab in (b'xn--', b'xn--a-', b'xn--' + v[a:b][:-1] + b'-', b'xn--99999999a', b'xn--bcher-kv', v[a:a + 1] + b'..' + v[a + 3:b], b'.' + v[a + 1:b]):
             lab = lab[:b - a].ljust(b - a, b'a') if not text else lab
             out.append(v[:a] + lab + v[b:])
     for s in list(siblings)[:4]:
@@ -175,6 +176,12 @@ def inflate_counts(rng, v, limit):
                 bucket.append(v[:i] + big + v[i + w:])
                 bucket.append(v[:i] + big)
                 bucket.append(v[:i] + big + v[i + w:i + w + 8])
+                if w == 1:
+                    # escape forms of a one-octet length: 00 followed by a 16-bit length (RFC 3110 exponent length), the BER
+                    # long form 82 followed by a 16-bit length
+                    for esc in (b'\x00\xff\xff', b'\x82\xff\xff'):
+                        bucket.append(v[:i] + esc + v[i + 1:])
+                        bucket.append(v[:i] + esc + v[i + 1:i + 2])
     if len(first) > 8 * limit:
         first = rng.sample(first, 8 * limit)
     if len(rest) > limit:
